@@ -194,6 +194,39 @@ m("c15-data-accessor-writes-receiver", "C15", "spatial/parametric.py",
         if callable(params):
             delattr(copy, "p")
             copy._unregister_params()""")
+# survivors of the automated mutation sweep (tools/mutsweep.py) of the spatial package that concern C15
+m("c15-isotropic-scales_-log-in-place", "C15", "spatial/linear.py",
+  """            raise ValueError(f"IsotropicScaling.scales() 'arg' must have shape {shape!r}")
+        params = as_float_tensor(arg)
+        if self.has_parameters():
+            params = params.log().atanh().add(1)""",
+  """            raise ValueError(f"IsotropicScaling.scales() 'arg' must have shape {shape!r}")
+        params = as_float_tensor(arg)
+        if self.has_parameters():
+            params = params.log_().atanh().add(1)""")
+m("c15-composite-condition-conditions-receiver", "C15", "spatial/composite.py",
+  """            copy = shallow_copy(self)
+            copy._transforms = ModuleDict(""", """            copy = self
+            copy._transforms = ModuleDict(""")
+m("c15-unlink-unlinks-receiver", "C15", "spatial/parametric.py",
+  """        return shallow_copy(self).unlink_()""", """        return self.unlink_()""")
+m("c15-data_-scales-argument-in-place", "C15", "spatial/parametric.py",
+  """        if isinstance(params, Parameter) and not isinstance(arg, Parameter):
+            self.params = Parameter(arg, params.requires_grad)
+        else:
+            self.params = arg
+        self.clear_buffers()
+        return self
+
+    def _data(""", """        if isinstance(params, Parameter) and not isinstance(arg, Parameter):
+            self.params = Parameter(arg.clamp_(-0.05, 0.05), params.requires_grad)
+        else:
+            self.params = arg
+        self.clear_buffers()
+        return self
+
+    def _data(""")
+
 # ----------------------------------------------------------------------------- C18
 m("c18-mha-matrix-not-transposed", "C18", "utils/imageio/meta.py",
   """            meta_out[key] = " ".join(str(x) for x in np.ravel(np.transpose(value)))""", """            meta_out[key] = " ".join(str(x) for x in np.ravel(value))""")
